@@ -55,12 +55,22 @@ pub struct WCfg {
     pub max_enqueues: usize,
     /// enumerate every accepted length (true) or only {1, 2, len-1, len} plus a middle one
     pub all_lengths: bool,
+    /// two extra body-less 204 responses that differ only in their headers
+    pub bodyless_variants: bool,
 }
 
 impl WCfg {
     pub fn response(&self, i: u8) -> Response {
         if i == 0 {
             return Response::new(Version::Http11, StatusCode::Continue);
+        }
+        if i as usize > self.bodies.len() {
+            let mut r = Response::new(Version::Http11, StatusCode::NoContent);
+            if i as usize == self.bodies.len() + 2 {
+                r.set_deprecation();
+                r.set_server("other");
+            }
+            return r;
         }
         let n = self.bodies[i as usize - 1];
         let mut r = Response::new(Version::Http10, StatusCode::OK);
@@ -69,7 +79,7 @@ impl WCfg {
         r
     }
     fn to_json(&self) -> Value {
-        json!({"label": self.label, "bodies": self.bodies, "max_enqueues": self.max_enqueues, "all_lengths": self.all_lengths})
+        json!({"label": self.label, "bodies": self.bodies, "max_enqueues": self.max_enqueues, "all_lengths": self.all_lengths, "bodyless_variants": self.bodyless_variants})
     }
     pub fn from_json(v: &Value) -> WCfg {
         WCfg {
@@ -77,6 +87,7 @@ impl WCfg {
             bodies: v["bodies"].as_array().unwrap().iter().map(|x| x.as_u64().unwrap() as usize).collect(),
             max_enqueues: v["max_enqueues"].as_u64().unwrap() as usize,
             all_lengths: v["all_lengths"].as_bool().unwrap(),
+            bodyless_variants: v["bodyless_variants"].as_bool().unwrap_or(false),
         }
     }
 }
@@ -290,7 +301,8 @@ impl<'a> WExec<'a> {
         }
         let mut v = vec![];
         if self.enqueues < self.cfg.max_enqueues {
-            for i in 0..=self.cfg.bodies.len() {
+            let menu = self.cfg.bodies.len() + if self.cfg.bodyless_variants { 2 } else { 0 };
+            for i in 0..=menu {
                 v.push(WAct::Enqueue(i as u8));
             }
         }
@@ -300,6 +312,20 @@ impl<'a> WExec<'a> {
                 let n = h.len();
                 if self.cfg.all_lengths || n <= 8 {
                     for k in 1..=n {
+                        v.push(WAct::Accept(k as u32));
+                    }
+                } else if n > 1000 {
+                    // large remainders: coarse menu (keeps the graph shallow), incl. the sizes
+                    // that typical caps / buffers would use
+                    let mut ks = vec![n / 2, n - 1, n];
+                    for c in [1024usize, 4096, 8192] {
+                        if c < n {
+                            ks.push(c);
+                        }
+                    }
+                    ks.sort();
+                    ks.dedup();
+                    for k in ks {
                         v.push(WAct::Accept(k as u32));
                     }
                 } else {
